@@ -241,6 +241,11 @@ class Run:
         else:
             code = 0
         evidence["coverage"]["exit_code"] = code
+        if code == 3 or (self.level == "proof" and (n_obl - n_known < 1 or n_dis < 1)):
+            # a broken / empty run is not evidence for a proof-level claim
+            evidence["level"] = "other"
+            evidence["coverage"]["explanation"] = ("checker broken or no obligation discharged in this run: "
+                                                   + "; ".join(self.broken)[:500])
         write_evidence(self.pid, evidence)
         print(
             f"[{self.pid}] tier={self.tier} obligations={n_obl} discharged={n_dis} "
